@@ -500,6 +500,9 @@ class ExcelInPython:
     def _address(row: int, col: int, *args) -> str:
         from string import ascii_uppercase
 
+        # номера строки и столбца - целые числа, даже если получены делением (3.0 -> 3)
+        row, col = int(row), int(col)
+
         def get_col():
             # буквы столбца: биективная система счисления по основанию 26 (Z -> AA, ZZ -> AAA)
             letters, number = '', int(col)
